@@ -466,16 +466,30 @@ theorem jenks_breaks_are_class_maxima (xs : List Rat) (k : Nat) (hn : 1 ≤ xs.l
       uppers (fun i => xs.getD i 0) xs.length (back (fun i => xs.getD i 0) xs.length (k - 1) xs.length)) :=
   kclass_eq xs k hn hk hfull
 
+/-- **every class is used**: on ascending data with at least `k − 1` strict ascents (i.e. at least `k` different
+    values) the back-tracked optimal partition has exactly `k` classes -- a partition with fewer could be refined
+    at an ascent inside one of its classes, strictly lowering the sum of squared deviations (`ssd_split_ascent`),
+    which contradicts optimality.  This discharges the hypothesis `hfull` of `jenks_breaks_are_class_maxima`. -/
+theorem jenks_uses_all_classes (x : Nat → Rat) (n k : Nat) (hs : Sorted x n) (hn : 1 ≤ n) (hk : 1 ≤ k)
+    (ha : k ≤ asc x n + 1) : (back x n (k - 1) n).length = k :=
+  back_full x n k hs hn hk ha
+
+/-- ... in terms of the sample: at least `k` different values (the branch condition `uvk >= k` of
+    `_run_natural_break`) -/
+theorem jenks_uses_all_classes_of_sample (sample : List Rat) (k : Nat) (hk : 1 ≤ k) (hku : k ≤ (uniq sample).length) :
+    (back (fun i => (sortQ sample).getD i 0) (sortQ sample).length (k - 1) (sortQ sample).length).length = k :=
+  sample_full sample k hk hku
+
 /-- **natural_breaks, Jenks branch** (at least `k` distinct sample values; breaks stored exactly,
     `breaks_stored_exactly`): the bins are the class maxima of the optimal partition of the sorted sample with
     the last one replaced by the raster maximum `mx`; they ascend, there are `k` of them, `mx` is one of them,
     and every cell is classified by `classOf` -/
 theorem natural_breaks_spec (cells : List (Ext Rat)) (sample : List Rat) (k : Nat) (mx : Rat)
     (hmx : maxQ (finiteVals cells) = some mx) (hsub : ∀ s ∈ sample, s ≤ mx) (hne : sample ≠ [])
-    (hk : 1 ≤ k) (hku : ¬ (uniq sample).length < k)
-    (hfull : (back (fun i => (sortQ sample).getD i 0) (sortQ sample).length (k - 1) (sortQ sample).length).length = k) :
+    (hk : 1 ≤ k) (hku : ¬ (uniq sample).length < k) :
     ∃ bins, naturalBreaks Gen.cpuBinShape id cells sample k = .ok (cells.map (classOf bins)) bins ∧
       bins.Pairwise (· ≤ ·) ∧ bins.length = k ∧ mx ∈ bins := by
+  have hfull := sample_full sample k hk (by omega)
   obtain ⟨hss, hsm⟩ := sortQ_sorted sample
   have hlen : 1 ≤ (sortQ sample).length := by
     obtain ⟨a, ha⟩ := List.exists_mem_of_ne_nil sample hne
@@ -541,6 +555,10 @@ example : naturalBreaks Gen.cpuBinShape (fun q => if q = 5 then 4 else q) [.fin 
 example : naturalBreaks Gen.cpuBinShape id [.fin 1, .fin 2, .fin 4, .fin 5, .pinf] [1, 2, 4, 5] 2 =
     .ok [.fin 0, .fin 0, .fin 1, .fin 1, .nan] [2, 5] := by decide +kernel
 example : (back (fun i => [1, 2, 4, (5 : Rat)].getD i 0) 4 1 4).length = 2 := by decide +kernel
+-- three strict ascents among 1, 2, 4, 5 (four different values): `jenks_uses_all_classes` applies for every k <= 4
+example : asc (fun i => [1, 2, 4, (5 : Rat)].getD i 0) 4 = 3 := by decide +kernel
+example : Sorted (fun i => [1, 2, 4, (5 : Rat)].getD i 0) 4 :=
+  fun i j hij hj => getD_sorted [1, 2, 4, 5] (by decide +kernel) i j hij hj
 -- the sample [0] of the raster [5, 0]: the fallback branch still classifies the maximum
 example : naturalBreaks Gen.cpuBinShape id [.fin 5, .fin 0] [0] 3 = .ok [.fin 1, .fin 0] [0, 5] := by decide +kernel
 example : naturalBreaks Gen.cpuBinShape id [.fin 5, .nan] [] 3 = .ok [.fin 0, .nan] [5] := by decide +kernel
